@@ -23,6 +23,11 @@ Local Open Scope N_scope.
 Notation file_write := DlWrite.file_write.
 Notation fget := DlWrite.fget.
 
+(** the rest of a file behind position [off] ([lseek] + reads); written so that a crafted,
+    astronomically large offset is not turned into a unary number when the model is run *)
+Definition seek (f : bytes) (off : N) : bytes :=
+  if len f <=? off then [] else skipn (N.to_nat off) f.
+
 Fixpoint find_i {A} (p : A -> bool) (l : list A) (i : nat) : option (nat * A) :=
   match l with
   | [] => None
@@ -82,7 +87,7 @@ Fixpoint copy_blocks (fuel : nat) (srest tf : bytes) (tpos n : N) (buf acc : byt
     source chunk's, over the source's digest size. *)
 Definition write_and_verify (sh : header) (sf : bytes) (th : header) (tf : bytes) (sc tc : chunk)
   : option (bytes * option Z) :=
-  let srest := skipn (N.to_nat (data_offset sh + c_start sc)) sf in
+  let srest := seek sf (data_offset sh + c_start sc) in
   match copy_blocks (S (length srest)) srest tf (data_offset th + c_start tc) (c_clen sc)
                     (repeat 0 (N.to_nat BUF_SIZE)) [] with
   | None => None
@@ -139,6 +144,18 @@ Definition copy_chunks (sh : header) (sf : bytes) (th : header) (tf : bytes) (fl
   match copy_loop sh sf th (h_chunks th) fl tf with
   | Some (fl', tf') => Some (fl', tf', sf)
   | None => None
+  end.
+
+(** copies from several sources, one after the other *)
+Fixpoint copy_many (th : header) (srcs : list (header * bytes)) (tf : bytes) (fl : list Z)
+  : option (list Z * bytes) :=
+  match srcs with
+  | [] => Some (fl, tf)
+  | (sh, sf) :: r =>
+      match copy_chunks sh sf th tf fl with
+      | Some (fl', tf', _) => copy_many th r tf' fl'
+      | None => None
+      end
   end.
 End Copy.
 
